@@ -4,7 +4,7 @@ from srcgen import regen_src
 from srcreplay import replay_src  # translated source run in Coq vs the real outputs  # pre-build generator: crc.go / encoding.go -> Gen/SrcPure.v
 
 PROP = {
-    "coq": ["C17", "C17s"],
+    "coq": ["C17", "C17s", "C17l"],
     "pre": [regen_src],
     "extra": [replay_src({'dec32s', 'enc32', 'dec16', 'enc64f', 'enc16', 'dec64s', 'dec64sf', 'enc32f', 'dec32sf', 'encb', 'dec16s', 'enc16s', 'decb', 'enc64'})],
     "exhaustive": False,
@@ -13,7 +13,8 @@ PROP = {
             "and seeded random values x 4 (byte order, word order) settings, integer and float entry points, "
             "plus ragged inputs that must panic. Bools: all vectors up to 12 bits, every length 0..2001 "
             "(all-true, all-false, one-hot, random), decode with quantities off the byte boundary and past the input."
-            " After rendering each decoded bool slice the executor overwrites and appends to it, so that storage shared between results shows in the next case.",
+            " After rendering each decoded bool slice the executor overwrites and appends to it, so that storage shared between results shows in the next case."
+            " Lists (encl, theorems C17l): the typed writers WriteRegisters/WriteUint32s/WriteFloat32s/WriteUint64s/WriteFloat64s (and the single-value 32/64-bit writers) on a client set to each of the 4 (byte order, word order) pairs, every list length one request can carry (1..123 / 1..61 / 1..30), random and pattern values: the register bytes of the request must be the documented layout of every value in order, and the typed read of exactly these registers must return the values written.",
     "assumptions": ["math.Float32bits/Float64bits and their inverses are the identity on bit patterns (exercised with NaN payloads and -0)"],
 }
 
